@@ -9,8 +9,10 @@ PROP = dict(
         "event granularity: one event = one critical section of Group.mutex / ServerManager.mutex; a command that makes a connection's read loop return is merged with the "
         "tail of handleTcpConnect that follows in the same goroutine, and a refused relay-pull attach with the Del…PullSession that follows (the first of the two changes nothing visible); "
         "atomicity itself is C20's subject",
-        "L1 harness: a real logic.Group called directly with real session objects (verif hook pkg/logic/verif_c03.go: read-only view of the slots, GroupOption with the hook-session "
-        "callback), a black-hole TCP listener as the origin of the pulls the group starts itself",
+        "L1 harness: a real logic.Group called directly with real session objects (verif hooks pkg/logic/verif_c03.go: read-only view of the slots, GroupOption with the hook-session "
+        "callback; pkg/logic/verif_c17.go: the connecting attempt's key pullingSessionUk), a TCP listener that parks the pulls the group starts itself and answers one only when the "
+        "scenario says so (lal's rtmp.ServerSession, resp. OPTIONS/DESCRIBE answers for an rtsp pull); StopPull / kick of the attached pull session is one event with the "
+        "Del…PullSession its goroutine then makes",
         "L2 harness: a real logic.ServerManager on 127.0.0.1, recording INotifyHandler, IAuthentication refusing `deny=1`, raw RTMP / RTSP clients written for the harness, "
         "lal's rtmp.ServerSession run by the harness on parked connections as the relay-pull origin; every event ends with a barrier; session ids renamed to order of first appearance",
         "notify worker: one goroutine fed in lock order (taskpool MaxWorkerNum = 1); the model's log is that FIFO",
@@ -18,22 +20,27 @@ PROP = dict(
         "the ghost field of the model (Pull.wasAttached) never influences an output",
     ],
     modelled=["Group.AddRtmpPubSession / AddRtspPubSession / AddCustomizePubSession / StartRtpPub / AddRtmpPullSession / AddRtspPullSession and the Del… counterparts (identity checks), "
-              "hasInSession, inSessionUniqueKey, addIn/delIn as pipeline start/stop, KickSession, Dispose, IsInactive, Tick→pullIfNeeded, StartPull / StopPull / shouldStartPull / kickPull",
+              "hasInSession, inSessionUniqueKey, addIn/delIn as pipeline start/stop, KickSession, Dispose, IsInactive, Tick→pullIfNeeded, StartPull / StopPull / shouldStartPull / stopPull / kickPull, "
+              "pullProxy.pullingSessionUk with isPullSessionConnecting / isPullSessionWanted (stop and kick cancel an attempt that is still connecting; an attach is refused with "
+              "errRelayPullStopped unless it is the attempt the group is waiting for; nothing but stopPull resets the key)",
               "ServerManager.OnNew*/OnDel* for RTMP and RTSP, CtrlStartRtpPub / CtrlKickSession / CtrlStartRelayPull / CtrlStopRelayPull / StatGroup, Add/DelCustomizePubSession, the notification queue",
               "rtmp.Server.handleTcpConnect + ServerSession.doPublish/doPlay (incl. second command), rtsp.Server.handleTcpConnect + ServerCommandSession ANNOUNCE / DESCRIBE / SETUP / RECORD / PLAY / teardown",
               "CustomizePubSessionContext.FeedRtmpMsg / Dispose; the media callbacks' source wiring (avObserver, onReadRtmpAvMsg, OnAvPacketFromPsPubSession)"],
     not_modelled=["HTTP-FLV / HTTP-TS / HLS subscribers (same callback pattern as RTMP subscribers)", "static relay pull (config) and auto-stop-pull timers, idle-session timeouts (C17)",
                   "relay push", "ServerManager.Dispose (shutdown)", "the rtsp-over-websocket server (same code shape as rtsp.Server; repaired identically)",
-                  "L2 does not exercise RTSP relay pull, RTSP/GB28181 media, or the 1 s tick (L1 covers Group.Tick; scenarios are built so that a tick is unobservable)"],
-    assumptions=["start_relay_pull is called with auto_stop_pull_after_no_out_ms = -1; static relay pull off", "StartRtpPub's listen succeeds", "a group named by a stale callback is the group currently registered under that name "
+                  "L2 does not exercise RTSP relay pull, RTSP/GB28181 media, or the 1 s tick (L1 covers Group.Tick and RTSP relay pull up to the attach; scenarios are built so that a tick is unobservable)",
+                  "relay-pull auto stop (lastHasOutTs, shouldAutoStopPull) and relay push incl. AddRtmpPushSession's publisher check (C17)"],
+    assumptions=["start_relay_pull is called with auto_stop_pull_after_no_out_ms = -1; static relay pull off", "StartRtpPub's listen succeeds",
+                 "a pull session's unique key is never the empty string (pullingSessionUk == \"\" means no attempt is remembered)",
+                 "a group named by a stale callback is the group currently registered under that name "
                  "(groups are erased only when they have no input, no output and no pull attempt)"],
 )
 
 META = dict(
     text="Invariants proved by induction over ALL event lists of the admission model (RTMP / RTSP connection automata incl. second commands and refused requests, customize and GB28181 "
-         "publishers, relay-pull attempts that attach, fail or are overtaken, kick / start_rtp_pub / start_relay_pull / stop_relay_pull, tick and group erasure, any number of streams). "
+         "publishers, relay-pull attempts that attach, fail, are overtaken or are stopped / kicked while still connecting, kick / start_rtp_pub / start_relay_pull / stop_relay_pull, tick and group erasure, any number of streams). "
          "The model is compared event by event with a real logic.Group (L1) and a real logic.ServerManager driven over TCP (L2); executable renderings of the property run on the "
-         "implementation's own output. Seven defects of the pinned tree were found, replayed on the real code and repaired in lal (see known_findings.json): a failed / overtaken relay pull tore the publisher down; start_rtp_pub installed a second input; a second publish/play on one RTMP connection crashed the server; a refused RTSP ANNOUNCE/DESCRIBE was followed by a stop notification; a second ANNOUNCE/DESCRIBE left a ghost publisher for ever; a removed customize publisher and a not-yet-attached relay pull could feed another input's stream.",
+         "implementation's own output. Seven defects of the pinned tree were found, replayed on the real code and repaired in lal (see known_findings.json): a failed / overtaken relay pull tore the publisher down; start_rtp_pub installed a second input; a second publish/play on one RTMP connection crashed the server; a refused RTSP ANNOUNCE/DESCRIBE was followed by a stop notification; a second ANNOUNCE/DESCRIBE left a ghost publisher for ever; a removed customize publisher and a not-yet-attached relay pull could feed another input's stream. The model was afterwards brought in line with C17's relay-pull repair (an attempt stopped or kicked while connecting is refused when the origin answers); `Code.pinned` keeps the old behaviour as a witness.",
     design_ref="§7 C03",
     note="All six planned theorems are proved at full strength over all event lists (at_most_one_input, refusal_is_silent, foreign_departure_harmless — in every state —, no_forward_from_non_input, notify_paired, stat_lists_attached_only) plus four corollaries; no `_partial`. Trusted: kernel, the hand-written model and its event granularity, the L1/L2 correspondence on generated scenarios + witness corpus, the oracles. L2 is timing-sensitive by nature: every event ends with a barrier and scenarios avoid what the 1 s server tick could make observable.",
     technique="Lean 4 invariants over event lists (ghost history per session) + L1/L2 differential correspondence + executable oracles",
